@@ -56,7 +56,8 @@ def toStep (j : J) : Except String StepSpec := do
       pure (some ⟨← toFld (s.getD "switchOn"), cases⟩)
   let fe ← match j.getD "forEach" with
     | .null => pure none
-    | f => do pure (some ⟨← toFld (f.getD "itemIn"), (f.getD "inputKeyEmpty").bool?.getD false⟩)
+    | f => do pure (some ⟨← toFld (f.getD "itemIn"), (f.getD "inputKeyEmpty").bool?.getD false,
+                          (f.getD "conditionNotObject").bool?.getD false⟩)
   pure {
     label := (j.getD "label").str?
     ref := ref
